@@ -313,12 +313,14 @@ pub fn run(tier: Tier) -> i32 {
             }
         }
     });
+    sections_pass(&mut acc);
+    acc.count("caches written from section(a..b)", 1);
     acc.transitions += acc.observations;
     let meta = RunMeta {
         prop: "C09",
         tier,
         level: "model_checking",
-        rule: "states = mappings (all histories of the listed scopes + string-length family + corpus files); in every state the real writer's bytes are decoded by the independent decoder and compared with the counts, orders and record contents the model derives from the AST; the library's self-test is run on every file. distinct = distinct (classes, members, by-params, string bytes) shapes; non-trivial = files with >= 1 member entry".into(),
+        rule: "states = mappings (all histories of the listed scopes + string-length family + corpus files + every section(a..b) of four small texts with multi-byte characters, whose cache must equal the cache of those bytes); in every state the real writer's bytes are decoded by the independent decoder and compared with the counts, orders and record contents the model derives from the AST; the library's self-test is run on every file. distinct = distinct (classes, members, by-params, string bytes) shapes; non-trivial = files with >= 1 member entry".into(),
         bounds: json!({"scopes": spaces.iter().map(|s| { let mut d = s.describe(); if d.get("alphabet").is_some() { d["alphabet"] = json!("see pgmc/src/e1.rs"); } d }).collect::<Vec<_>>(), "corpus_files": corpus.len()}),
         assumptions: vec!["string uniqueness in the string section is not demanded (the statement does not)".into(), "the class entry's own file-name field is only required to be absent or a valid string".into()],
         trusted_base: vec!["rustc/std".into(), "independent decoder pgmc/src/dec.rs (written from the format documentation)".into(), "reference model pgmc/src/model.rs".into()],
@@ -326,8 +328,42 @@ pub fn run(tier: Tier) -> i32 {
     finish(meta, acc, &budget, &|c| recheck(c))
 }
 
+/// sections: the cache written from parent.section(a..b) is byte for byte the cache written from a fresh mapping over
+/// those bytes - also when the section starts or ends inside a multi-byte character of a text that is valid UTF-8 as
+/// a whole. (Sections that cut a line are outside the representable domain - empty names - so the layout clauses are
+/// not applied to them; the comparison is.)
+fn sections_pass(acc: &mut Acc) {
+    for text in super::c06::SECTION_TEXTS {
+        let s = text.as_bytes();
+        for a in 0..=s.len() {
+            for b in a..=s.len() {
+                acc.states += 1;
+                acc.observations += 1;
+                let r = guarded(|| (cur::write_cache_section(s, a, b), cur::write_cache(&s[a..b])));
+                match r {
+                    Ok((Ok(sec), Ok(fresh))) => {
+                        if sec != fresh {
+                            acc.violation("section:cache-differs-from-fresh-mapping", b - a, || (format!("the cache written from section({}..{}) of {:?} differs from the cache written from a fresh mapping over those bytes", a, b, esc(s)), json!({"kind":"sections"})));
+                        }
+                    }
+                    Ok((x, y)) => {
+                        if x.is_err() != y.is_err() {
+                            acc.violation("section:write-error-differs", b - a, || (format!("section({}..{}) of {:?}: {:?} / {:?}", a, b, esc(s), x.err(), y.err()), json!({"kind":"sections"})));
+                        }
+                    }
+                    Err(p) => acc.violation(format!("panic:{}", panic_site(&p)), b - a, || (format!("section({}..{}) of {:?}: {}", a, b, esc(s), p), json!({"kind":"sections"}))),
+                }
+            }
+        }
+    }
+}
+
 pub fn recheck(case: &Value) -> Vec<String> {
     let mut acc = Acc::new();
+    if case["kind"] == "sections" {
+        sections_pass(&mut acc);
+        return acc.violations.keys().cloned().collect();
+    }
     if case["kind"] == "corpus" {
         let name = case["file"].as_str().unwrap_or("");
         if let Ok(bytes) = std::fs::read(name) {
